@@ -258,6 +258,30 @@ def lookup_tables(lang):
     return names, pairs, rpairs, ents, rrows, combos, erows, rapairs
 
 
+def c_name_code(t):
+    """the variable a c_arg_decl template names: 1 {c_var}, 2 {cxx_var}, 0 anything else"""
+    m = re.search(r"(\{\w+\}|\w+)\s*(\[[^\]]*\]\s*)*$", t.strip())
+    return {"{c_var}": 1, "{cxx_var}": 2}.get(m.group(1) if m else "", 0)
+
+
+def f_name_code(t):
+    """the entity an f_arg_decl template declares: 1 exactly `{c_var}` (with an optional {f_c_dimension} / shape), 0 otherwise"""
+    if "::" not in t:
+        return 0
+    ent = t.split("::", 1)[1].strip()
+    return 1 if re.match(r"^\{c_var\}\s*(\{f_c_dimension\}|\([^)]*\))?$", ent) else 0
+
+
+def decl_name_rows(ents):
+    """for every entry that carries c_arg_decl / f_arg_decl lists (same order as decl_rows): the name codes of both lists"""
+    rows = []
+    for name in sorted(ents):
+        s = ents[name]
+        if "arg_decl" in list(s.buf_args) + list(s.buf_extra):
+            rows.append((name, [c_name_code(t) for t in s.c_arg_decl], [f_name_code(t) for t in s.f_arg_decl]))
+    return rows
+
+
 def decl_rows(ents):
     rows, rrows = [], []
     for name in sorted(ents):
@@ -650,6 +674,10 @@ def render(data):
     L.append(",\n".join("  ([%s], [%s])" % (", ".join(_tup(enc_ct(x)) for x in cs), ", ".join(_tup(enc_ft(x)) for x in fs))
                         for _n, cs, fs in data["decl"]))
     L.append("]")
+    L.append("/-- same rows: the variable each template names (C list, Fortran list): 1 `{c_var}`, 2 `{cxx_var}`, 0 anything else -/")
+    L.append("def declNameRows : List (List Nat × List Nat) := [")
+    L.append(",\n".join("  (%s, %s)" % (list(data["declnames"][k][0]), list(data["declnames"][k][1])) for k in data["declkeys"]))
+    L.append("]")
     L.append("def declRowNames : List String := [")
     L.append(_lst(['"%s"' % r[0] for r in data["decl"]], per=4))
     L.append("]")
@@ -684,6 +712,8 @@ def collect():
         data["lookup"][lang] = (names, pairs, rpairs, rrows, erows, rapairs)
         data.setdefault("disagreements", []).extend(combos)
         rows, rrows = decl_rows(ents)
+        for (n, cs, fs), (_n2, cn, fn) in zip(rows, decl_name_rows(ents)):
+            data.setdefault("declnames", {})[(n, repr(cs), repr(fs))] = (cn, fn)
         for n, cs, fs in rows:
             decl_all[(n, repr(cs), repr(fs))] = (n, cs, fs)
         for n, g, sp, fs in rrows:
@@ -695,6 +725,7 @@ def collect():
             rdecl_all[n] = (n, enc_c(p), fs)
     data["sgroups"] = sgroups()
     data["decl"] = [decl_all[k] for k in sorted(decl_all)]
+    data["declkeys"] = sorted(decl_all)
     data["rdecl"] = [rdecl_all[k] for k in sorted(rdecl_all)]
     data["typemap"] = typemap_rows()
     data["fcnptr"] = fcnptr_rows()
